@@ -203,6 +203,38 @@ def run(ck, prog, tier, load):
         ck.ob("C17-a.connection-read-delegates", "H1Connection::poll_read", ok, b, rets[0][0] if rets else None, "H1Connection::poll_read returns the transport's poll_read result itself on every path (no error is turned into Ok)")
     stream_flag_has_payload(ck, prog, "C17-d")
 
+    # ---- (b) the release decision comes from the exchange, not from one side of it -----------------------------
+    n1 = 0
+    for b, bb, t in prog.callers(r"^awc::client::connection::H1Connection(<Io>)?::on_release$"):
+        if "awc::client::h1proto" not in b.npath:
+            continue
+        n1 += 1
+        ka = b.op_expr(t["args"][1], 6)
+        ok = bool(e_calls(ka, r"ClientPayloadCodec::keep_alive$|ClientCodec::keep_alive$")) or ka[:3] == ("const", None, 0)
+        ck.ob("C17-b.release-decision-from-codec", "%s|%d" % (b.npath.split("::")[-1] if not b.npath.endswith("}") else b.npath.split("::")[-2], n1), ok, b, bb,
+              "the keep-alive flag given to on_release is the codec's (request close/upgrade and response both counted), never the response head's alone")
+    ck.anchor("C17-b", n1, 3, "H1 on_release call sites in h1proto")
+    n2 = 0
+    for b, bb, t in prog.callers(r"^awc::client::connection::H2Connection(<Io>)?::on_release$"):
+        if not b.npath.startswith("awc::client::h2proto"):
+            continue
+        gs = b.guards(bb)
+        on_err = any(c[0] == "discr" and lab == "Err" for c, lab, a in gs)
+        if not on_err:
+            continue
+        n2 += 1
+        e = b.op_expr(t["args"][1], 6)
+        srcs = [e] + [c for c, lab, a in gs]
+        if isinstance(e, tuple) and e[0] == "phi":
+            for d in b.defs().get(e[1], []):
+                srcs.append(b.def_expr(d, 6))
+                srcs += [c for c, lab, a in b.guards(d[1])]
+        always = isinstance(e, tuple) and e[:3] == ("const", None, 1)  # closing is always safe
+        ok = always or (any(e_calls(s, r"h2::.*Error::is_io$|^h2::error::Error::is_io$|Error::is_io$") for s in srcs) and any(e_calls(s, r"Error::is_go_away$") for s in srcs))
+        ck.ob("C17-b.h2-error-release-closes", "send_request|%d" % n2, ok, b, bb,
+              "after a failed HTTP/2 exchange the connection goes back to the pool only if the error is neither an I/O failure nor a GOAWAY (both tested)")
+    ck.anchor("C17-b", n2, 2, "H2 on_release call sites on error paths in h2proto")
+
 
 def lab_any(edges, name):
     return any(lab == name for lab, tb in edges)
